@@ -17,27 +17,27 @@ package analysis
 //@   requires len(paths) > 0
 //@   ensures result == "" || (forall i int :: 0 <= i && i < len(paths) ==> isDirAncestor(result, paths[i]))
 //@   ensures (forall i int :: 0 <= i && i < len(paths) ==> len(paths[i]) > 0 && paths[i][0] == '/') ==> result != ""
-//@   loop 1 invariant 0 <= index && index <= len(first) && first == paths[0]
-//@   loop 1 invariant forall p, k int :: 0 <= p && p < len(paths) && 0 <= k && k < index ==> k < len(paths[p]) && paths[p][k] == first[k]
-//@   loop 1 decreases len(first) - index
-//@   loop 2 index j
-//@   loop 2 invariant forall p int :: 0 <= p && p < j ==> index < len(paths[p]) && paths[p][index] == c
-//@   loop 3 index j3
-//@   loop 3 invariant atBoundary <==> (forall p int :: 0 <= p && p < j3 ==> !(index < len(paths[p]) && paths[p][index] != '/'))
-//@   loop 4 invariant 0 <= index && index <= len(first)
-//@   loop 4 invariant forall p, k int :: 0 <= p && p < len(paths) && 0 <= k && k < index ==> k < len(paths[p]) && paths[p][k] == first[k]
-//@   loop 4 invariant (forall i int :: 0 <= i && i < len(paths) ==> len(paths[i]) > 0 && paths[i][0] == '/') ==> index >= 1
-//@   loop 4 decreases index
+//@   loop for.1 invariant 0 <= index && index <= len(first) && first == paths[0]
+//@   loop for.1 invariant forall p, k int :: 0 <= p && p < len(paths) && 0 <= k && k < index ==> k < len(paths[p]) && paths[p][k] == first[k]
+//@   loop for.1 decreases len(first) - index
+//@   loop paths.1 index j
+//@   loop paths.1 invariant forall p int :: 0 <= p && p < j ==> index < len(paths[p]) && paths[p][index] == c
+//@   loop paths.2 index j3
+//@   loop paths.2 invariant atBoundary <==> (forall p int :: 0 <= p && p < j3 ==> !(index < len(paths[p]) && paths[p][index] != '/'))
+//@   loop for.2 invariant 0 <= index && index <= len(first)
+//@   loop for.2 invariant forall p, k int :: 0 <= p && p < len(paths) && 0 <= k && k < index ==> k < len(paths[p]) && paths[p][k] == first[k]
+//@   loop for.2 invariant (forall i int :: 0 <= i && i < len(paths) ==> len(paths[i]) > 0 && paths[i][0] == '/') ==> index >= 1
+//@   loop for.2 decreases index
 
 //@ func selectByFile
 //@   props C17
 //@   requires forall i int :: 0 <= i && i < len(pkgs) ==> pkgs[i] != nil
 //@   ensures result != nil ==> (exists i, j int :: 0 <= i && i < len(pkgs) && pkgs[i] == result && 0 <= j && j < len(pkgs[i].GoFiles) && pkgs[i].GoFiles[j] == file)
 //@   ensures result == nil ==> (forall i, j int :: 0 <= i && i < len(pkgs) && 0 <= j && j < len(pkgs[i].GoFiles) ==> pkgs[i].GoFiles[j] != file)
-//@   loop 1 index i
-//@   loop 1 invariant forall a, b int :: 0 <= a && a < i && 0 <= b && b < len(pkgs[a].GoFiles) ==> pkgs[a].GoFiles[b] != file
-//@   loop 2 index j
-//@   loop 2 invariant forall b int :: 0 <= b && b < j ==> pkg.GoFiles[b] != file
+//@   loop pkgs.1 index i
+//@   loop pkgs.1 invariant forall a, b int :: 0 <= a && a < i && 0 <= b && b < len(pkgs[a].GoFiles) ==> pkgs[a].GoFiles[b] != file
+//@   loop pkg.GoFiles.1 index j
+//@   loop pkg.GoFiles.1 invariant forall b int :: 0 <= b && b < j ==> pkg.GoFiles[b] != file
 
 //@ func LoadSources
 //@   props C17
@@ -52,12 +52,12 @@ package analysis
 //@           || onceResult("golang.org/x/tools/go/packages.Load", 2, "error") != nil
 //@           || packages.PrintErrors(onceResult("golang.org/x/tools/go/packages.Load", 1, "[]*packages.Package")) > 0
 //@           || (exists i int :: 0 <= i && i < len(sourceFiles) && (forall a, b int :: 0 <= a && a < len(onceResult("golang.org/x/tools/go/packages.Load", 1, "[]*packages.Package")) && 0 <= b && b < len(onceResult("golang.org/x/tools/go/packages.Load", 1, "[]*packages.Package")[a].GoFiles) ==> onceResult("golang.org/x/tools/go/packages.Load", 1, "[]*packages.Package")[a].GoFiles[b] != filepath.Abs(sourceFiles[i])))
-//@   loop 1 index i1
-//@   loop 1 invariant len(dirs) == len(sourceFiles) && len(patterns) == len(sourceFiles)
-//@   loop 1 invariant forall k int :: 0 <= k && k < i1 ==> second(os.Stat(sourceFiles[k])) == nil && dirs[k] == filepath.Dir(filepath.Abs(sourceFiles[k]))
-//@   loop 2 index i2
-//@   loop 2 invariant len(out) == len(sourceFiles)
-//@   loop 2 invariant forall k int :: 0 <= k && k < i2 ==> out[k] != nil && (exists j int :: 0 <= j && j < len(out[k].GoFiles) && out[k].GoFiles[j] == filepath.Abs(sourceFiles[k]))
+//@   loop sourceFiles.1 index i1
+//@   loop sourceFiles.1 invariant len(dirs) == len(sourceFiles) && len(patterns) == len(sourceFiles)
+//@   loop sourceFiles.1 invariant forall k int :: 0 <= k && k < i1 ==> second(os.Stat(sourceFiles[k])) == nil && dirs[k] == filepath.Dir(filepath.Abs(sourceFiles[k]))
+//@   loop sourceFiles.2 index i2
+//@   loop sourceFiles.2 invariant len(out) == len(sourceFiles)
+//@   loop sourceFiles.2 invariant forall k int :: 0 <= k && k < i2 ==> out[k] != nil && (exists j int :: 0 <= j && j < len(out[k].GoFiles) && out[k].GoFiles[j] == filepath.Abs(sourceFiles[k]))
 
 //@ func LoadSource
 //@   props C17
@@ -118,12 +118,12 @@ package analysis
 //@   ensures e.IsIota ==> downClosed(e.Members)
 //@   -- completeness: ... and flagged for every plain block of non-negative constants 0,1,2,...
 //@   ensures old(e.IsInteger() && allNat(e.Members) && distinctExp(e.Members) && downClosed(e.Members)) ==> e.IsIota
-//@   loop 1 index k
-//@   loop 1 invariant forall t int :: 0 <= t && t < k ==> isI64(e.Members[t]) && ival(e.Members[t]) >= 0 && values[t] == ival(e.Members[t])
-//@   loop 1 invariant forall v int :: has(seen, v) <==> (exists t int :: 0 <= t && t < k && isExp(e.Members[t]) && ival(e.Members[t]) == v)
-//@   loop 1 invariant forall v int :: has(seen, v) ==> seen[v]
-//@   loop 1 invariant max >= -1 && within(domain(seen), max) && (max == -1 || has(seen, max))
-//@   loop 1 invariant forall s, t int :: 0 <= s && s < k && 0 <= t && t < k && s != t && isExp(e.Members[s]) && isExp(e.Members[t]) ==> ival(e.Members[s]) != ival(e.Members[t])
+//@   loop e.Members.1 index k
+//@   loop e.Members.1 invariant forall t int :: 0 <= t && t < k ==> isI64(e.Members[t]) && ival(e.Members[t]) >= 0 && values[t] == ival(e.Members[t])
+//@   loop e.Members.1 invariant forall v int :: has(seen, v) <==> (exists t int :: 0 <= t && t < k && isExp(e.Members[t]) && ival(e.Members[t]) == v)
+//@   loop e.Members.1 invariant forall v int :: has(seen, v) ==> seen[v]
+//@   loop e.Members.1 invariant max >= -1 && within(domain(seen), max) && (max == -1 || has(seen, max))
+//@   loop e.Members.1 invariant forall s, t int :: 0 <= s && s < k && 0 <= t && t < k && s != t && isExp(e.Members[s]) && isExp(e.Members[t]) ==> ival(e.Members[s]) != ival(e.Members[t])
 
 // the trailing comment is read from the syntax tree (position based navigation, outside the
 // verified subset): assumed to be a function of the constant. Its safety is a C18 matter.
@@ -152,18 +152,18 @@ package analysis
 //@   ensures forall N *types.Named :: has(result, N) ==> ghost("iotaChecked", result[N]) == 1
 //@   -- loop 1 builds the member lists: all those constants (invariant 5) and nothing else (invariant 6), each
 //@   -- with its trailing comment; loop 2 only applies setIsIota, whose own contract says the members are permuted.
-//@   loop 1 index n
-//@   loop 1 invariant forall N *types.Named :: has(out, N) <==> (exists i int :: 0 <= i && i < n && enumConst(pa, scope.Names()[i], N))
-//@   loop 1 invariant forall N *types.Named :: has(out, N) ==> out[N] != nil && out[N].name == N && !out[N].IsIota && !isnil(out[N].Members)
-//@   loop 1 invariant forall N *types.Named :: has(out, N) ==> allocated(out[N]) && fresh(out[N]) && allocated(out[N].Members) && fresh(out[N].Members)
-//@   loop 1 invariant forall N1, N2 *types.Named :: has(out, N1) && has(out, N2) && N1 != N2 ==> out[N1] != out[N2] && ref(out[N1].Members) != ref(out[N2].Members)
-//@   loop 1 invariant forall N *types.Named, i int :: 0 <= i && i < n && enumConst(pa, scope.Names()[i], N) ==> (exists k int :: 0 <= k && k < len(out[N].Members) && isMemberOf(pa, scope.Names()[i], out[N].Members[k]))
-//@   loop 1 invariant forall N *types.Named, k int :: has(out, N) && 0 <= k && k < len(out[N].Members) ==> (exists i int :: 0 <= i && i < n && enumConst(pa, scope.Names()[i], N) && isMemberOf(pa, scope.Names()[i], out[N].Members[k]))
-//@   loop 1 invariant framedField(Enum, Members) && framedField(Enum, IsIota) && framedField(Enum, name) && framedElems(EnumMember)
-//@   loop 2 visited done
-//@   loop 2 invariant forall N *types.Named :: has(out, N) ==> out[N] != nil && out[N].name == N && !isnil(out[N].Members)
-//@   loop 2 invariant forall N *types.Named :: has(out, N) ==> fresh(out[N]) && fresh(out[N].Members)
-//@   loop 2 invariant forall N *types.Named :: has(out, N) && !done[N] ==> !out[N].IsIota
-//@   loop 2 invariant forall N *types.Named :: has(out, N) && done[N] ==> ghost("iotaChecked", out[N]) == 1
-//@   loop 2 invariant forall N1, N2 *types.Named :: has(out, N1) && has(out, N2) && N1 != N2 ==> out[N1] != out[N2] && ref(out[N1].Members) != ref(out[N2].Members)
-//@   loop 2 invariant framedField(Enum, Members) && framedField(Enum, IsIota) && framedElems(EnumMember) && framedGhost("iotaChecked")
+//@   loop scope.Names().1 index n
+//@   loop scope.Names().1 invariant forall N *types.Named :: has(out, N) <==> (exists i int :: 0 <= i && i < n && enumConst(pa, scope.Names()[i], N))
+//@   loop scope.Names().1 invariant forall N *types.Named :: has(out, N) ==> out[N] != nil && out[N].name == N && !out[N].IsIota && !isnil(out[N].Members)
+//@   loop scope.Names().1 invariant forall N *types.Named :: has(out, N) ==> allocated(out[N]) && fresh(out[N]) && allocated(out[N].Members) && fresh(out[N].Members)
+//@   loop scope.Names().1 invariant forall N1, N2 *types.Named :: has(out, N1) && has(out, N2) && N1 != N2 ==> out[N1] != out[N2] && ref(out[N1].Members) != ref(out[N2].Members)
+//@   loop scope.Names().1 invariant forall N *types.Named, i int :: 0 <= i && i < n && enumConst(pa, scope.Names()[i], N) ==> (exists k int :: 0 <= k && k < len(out[N].Members) && isMemberOf(pa, scope.Names()[i], out[N].Members[k]))
+//@   loop scope.Names().1 invariant forall N *types.Named, k int :: has(out, N) && 0 <= k && k < len(out[N].Members) ==> (exists i int :: 0 <= i && i < n && enumConst(pa, scope.Names()[i], N) && isMemberOf(pa, scope.Names()[i], out[N].Members[k]))
+//@   loop scope.Names().1 invariant framedField(Enum, Members) && framedField(Enum, IsIota) && framedField(Enum, name) && framedElems(EnumMember)
+//@   loop out.1 visited done
+//@   loop out.1 invariant forall N *types.Named :: has(out, N) ==> out[N] != nil && out[N].name == N && !isnil(out[N].Members)
+//@   loop out.1 invariant forall N *types.Named :: has(out, N) ==> fresh(out[N]) && fresh(out[N].Members)
+//@   loop out.1 invariant forall N *types.Named :: has(out, N) && !done[N] ==> !out[N].IsIota
+//@   loop out.1 invariant forall N *types.Named :: has(out, N) && done[N] ==> ghost("iotaChecked", out[N]) == 1
+//@   loop out.1 invariant forall N1, N2 *types.Named :: has(out, N1) && has(out, N2) && N1 != N2 ==> out[N1] != out[N2] && ref(out[N1].Members) != ref(out[N2].Members)
+//@   loop out.1 invariant framedField(Enum, Members) && framedField(Enum, IsIota) && framedElems(EnumMember) && framedGhost("iotaChecked")
